@@ -263,6 +263,13 @@ def verifiers_first(F, S, inv):
         lim = "nodeCount" if dps[0][1] == "index" else "terminalNodeCount"
         out += r_guard_exact(F, Engine(F, S), fn, [(P(fn, 0), ("mem", ("this",), lim), True)])
         nver += 1
+    # the public operations on a node position refuse nothing but positions outside the tree (a position is valid whatever
+    # the node there currently holds: leaves and inner nodes trade places as the tree adapts)
+    for fn in ops:
+        dpi = [i for i, kind in domain_params(fn) if kind == "index"]
+        if not dpi or access.get(fn.key) != "public":
+            continue
+        out += r_guard_exact(F, Engine(F, S), fn, [(P(fn, dpi[0]), ("mem", ("this",), "nodeCount"), True)], optional=True, no_other=True)
     # the symbol refusal itself, wherever it lives: at the first table access of every operation on a symbol, the symbol
     # is known to be below terminalNodeCount
     for fn in ops:
